@@ -422,7 +422,11 @@ def gen_solve(r, n, tag=None, tol=False, form=None, left=None, K=None):
     if form is None:
         form = r.choice("ssii" + FORMS_ANY) if K == "v" else r.choice("ssii" + FORMS_ANY + FORMS_MAT + FORMS_MAT)
     m = 1 if K == "v" else r.choice([1, 2, 3, 5, 17])
-    wc = form in "rjxy"       # forms that go through the explicit inverse: forward stable only
+    # forms that go through rows / columns of the explicit inverse (r j x y; p q from the right: X e_k = B (A^-1 e_k))
+    # are forward stable only: generated on well-conditioned systems, where the 1e-9 residual bound is sound
+    wc = form in "rjpqxy"
+    if wc and tag == "semi":
+        n = min(n, 24)
     s = 0
     extra = ""
     if tag == "spd":
